@@ -192,7 +192,7 @@ func (s *Server) AwaitSeries(db string, want []string, d time.Duration) []string
 				return nil
 			}
 		}
-		if time.Now().After(deadline) {
+		if time.Now().After(deadline) || (err != nil && !s.Alive()) { // (a dead server will not answer: the caller handles that)
 			if err != nil {
 				return []string{"show series failed: " + err.Error()}
 			}
